@@ -363,10 +363,10 @@ Definition oracle_C03 (x : case) : bool := o_ok3 (o_final x).
 Definition oracle_C01 (x : case) : bool := o_ok1 (o_final x).
 Definition oracle_C13 (x : case) : bool := o_ok13 (o_final x).
 Definition oracle_C15 (x : case) : bool := o_ok15 (o_final x).
-Definition oracle_C05 (x : case) : bool := o_ok5 (o_final x).
+Definition oracle_C05_first (x : case) : bool := o_ok5 (o_final x).
 Definition oracle_C14 (x : case) : bool := c14_run [] 0 (snd (fst x)) (snd x).
 Definition oracle_base (x : case) : bool :=
-  oracle_C03 x && oracle_C01 x && oracle_C13 x && oracle_C15 x && oracle_C05 x && oracle_C14 x.
+  oracle_C03 x && oracle_C01 x && oracle_C13 x && oracle_C15 x && oracle_C05_first x && oracle_C14 x.
 
 (* diagnosis: index of the first op after which a given flag of the oracle state is false *)
 Fixpoint first_bad_from (proj : ost -> bool) (known : list peer) (i : N) (o : ost) (ops : list cop) (obs : list cobs) : option N :=
@@ -378,6 +378,42 @@ Fixpoint first_bad_from (proj : ost -> bool) (known : list peer) (i : N) (o : os
   end.
 Definition first_bad (proj : ost -> bool) (x : case) : option N := first_bad_from proj [] 0 o0 (snd (fst x)) (snd x).
 
+Definition snap_ss (s : csnap) (p : peer) : option sending_state :=
+  match s with
+  | CSnap _ _ _ peers _ _ _ _ _ =>
+      match find (fun ps => match ps with PSnap q _ _ _ _ _ _ => q =? p end) peers with
+      | Some (PSnap _ _ ss _ _ _ _) => Some ss
+      | None => None
+      end
+  end.
+
+Definition sending_conn_of (ss : sending_state) : option conn :=
+  match ss with
+  | SsRequested _ c | SsRequestReceived _ c | SsSending _ c => Some c
+  | _ => None
+  end.
+
+
+Definition csnap0 : csnap := CSnap 0 [] 0 [] [] 0 [] 0 0.
+
+(* transmission faults visible to the behaviour at this op: a Failed report from the connection that is sending,
+   or (at a poll) a request that stayed unacknowledged for RECEIVE_REQUEST_TIMEOUT / a recorded failure *)
+Definition faults_of (prev : csnap) (now' : N) (op : cop) : list (peer * conn) :=
+  match op with
+  | CReport p c (RpFailed _) =>
+      match snap_ss prev p with
+      | Some ss => match sending_conn_of ss with Some c0 => if c0 =? c then [(p, c)] else [] | None => [] end
+      | None => []
+      end
+  | CPoll _ =>
+      flat_map (fun p => match snap_ss prev p with
+                         | Some (SsRequested t c) => if RECEIVE_REQUEST_TIMEOUT <=? now' - t then [(p, c)] else []
+                         | Some (SsFailed c) => [(p, c)]
+                         | _ => []
+                         end) (snap_peers prev)
+  | _ => []
+  end.
+
 (* ---------------------------------------------------------------------------------------------- *)
 (* C04 at the client level: per peer, the Bitswap reference view folded over the wantlists generated *)
 (* for that peer, against W = the CIDs of the queries that wait for the network.  Same ghost          *)
@@ -385,8 +421,11 @@ Definition first_bad (proj : ost -> bool) (x : case) : option N := first_bad_fro
 (* API-level observables.  A generated wantlist is taken as delivered; C05 guarantees that whenever    *)
 (* that is in doubt the next one is a full wantlist, which overwrites the view.                        *)
 
-Record pv := MkPv { v_view : list cid; v_ans : list (cid * N); v_deliv : list cid; v_told : list cid }.
-Definition pv0 : pv := MkPv [] [] [] [].
+(* v_before: the view before the last generated wantlist; v_alt: after a transmission fault the last wantlist may or
+   may not have reached the peer — the view it has if it did not (two-valued until the next full wantlist) *)
+Record pv := MkPv { v_view : list cid; v_ans : list (cid * N); v_deliv : list cid; v_told : list cid;
+                    v_before : list cid; v_alt : option (list cid) }.
+Definition pv0 : pv := MkPv [] [] [] [] [] None.
 
 Record c4 := MkC4 { c4_w : list cid; c4_peers : list (peer * pv); c4_ok : bool }.
 
@@ -402,19 +441,20 @@ Definition a_del (c : cid) (l : list (cid * N)) : list (cid * N) := filter (fun 
 (* c becomes wanted anew: peers that delivered it have to be told again *)
 Definition pv_wanted_anew (c : cid) (v : pv) : pv :=
   match a_get c (v_ans v) with
-  | Some 2 => MkPv (v_view v) (a_del c (v_ans v)) (v_deliv v) (cid_remove c (v_told v))
+  | Some 2 => MkPv (v_view v) (a_del c (v_ans v)) (v_deliv v) (cid_remove c (v_told v)) (v_before v) (v_alt v)
   | _ => v
   end.
 
 Definition pv_presence (v : pv) (ch : cid * bool) : pv :=
   if cid_mem (fst ch) (v_told v)
-  then MkPv (v_view v) (a_set (fst ch) (if snd ch then 0 else 1) (v_ans v)) (v_deliv v) (v_told v) else v.
+  then MkPv (v_view v) (a_set (fst ch) (if snd ch then 0 else 1) (v_ans v)) (v_deliv v) (v_told v) (v_before v) (v_alt v) else v.
 
 (* a block for c from this peer; `accepted` = the node was waiting for it *)
 Definition pv_block (accepted : bool) (v : pv) (c : cid) : pv :=
   MkPv (cid_remove c (v_view v))
        (if accepted && cid_mem c (v_told v) then a_set c 2 (v_ans v) else v_ans v)
-       (if cid_mem c (v_deliv v) then v_deliv v else c :: v_deliv v) (v_told v).
+       (if cid_mem c (v_deliv v) then v_deliv v else c :: v_deliv v) (v_told v)
+       (cid_remove c (v_before v)) (option_map (cid_remove c) (v_alt v)).
 
 Definition ge_view (v : list cid) (e : gen_entry) : list cid :=
   match fst e with KCancel => cid_remove (snd e) v | _ => if cid_mem (snd e) v then v else snd e :: v end.
@@ -422,18 +462,26 @@ Definition ge_view (v : list cid) (e : gen_entry) : list cid :=
 (* a wantlist generated for the peer: checks, then the new ghost state *)
 Definition pv_generate (w : list cid) (v : pv) (full : bool) (es : list gen_entry) : pv * bool :=
   let view1 := fold_left ge_view es (if full then [] else v_view v) in
+  (* the other possibility after a fault: the previous wantlist never arrived *)
+  let alt1 := if full then None else option_map (fun a => fold_left ge_view es a) (v_alt v) in
   let wants := map snd (filter is_want es) in
   let cancels := map snd (filter (fun e => negb (is_want e)) es) in
   let announced := forallb (fun c => cid_mem c (v_told v) || cid_mem c wants) w in
   let ans1 := filter (fun e => cid_mem (fst e) w) (v_ans v) in
   let deliv1 := filter (fun c => negb (cid_mem c wants)) (v_deliv v) in
   let dh1 := map fst (filter (fun e => snd e =? 1) ans1) in
-  let sound := forallb (fun c => cid_mem c w) view1 in
-  let complete := forallb (fun c => cid_mem c view1 || cid_mem c dh1 || cid_mem c deliv1) w in
+  let good (view : list cid) := forallb (fun c => cid_mem c w) view
+                                && forallb (fun c => cid_mem c view || cid_mem c dh1 || cid_mem c deliv1) w in
   let exact := if full then set_eqb cid_eqb wants (filter (fun c => negb (cid_mem c dh1)) w)
                             && match cancels with [] => true | _ => false end
                else true in
-  (MkPv view1 ans1 deliv1 w, announced && sound && complete && exact).
+  (MkPv view1 ans1 deliv1 w (if full then [] else v_view v) alt1,
+   announced && good view1 && match alt1 with Some a => good a | None => true end && exact).
+
+(* a transmission fault for this peer: the last generated wantlist may not have arrived *)
+Definition pv_fault (v : pv) : pv :=
+  MkPv (v_view v) (v_ans v) (v_deliv v) (v_told v) (v_before v)
+       (match v_alt v with Some a => Some a | None => Some (v_before v) end).
 
 (* the live set W after an op, from the oracle state of the C03 fold: CIDs of missed queries still waiting *)
 Definition live_cids (o : ost) : list cid :=
@@ -445,9 +493,11 @@ Definition live_cids (o : ost) : list cid :=
                     end
                else acc) (o_missed o) [].
 
-Definition c4_step (known : list peer) (o_before o_after : ost) (g : c4) (op : cop) (obs : cobs) : c4 :=
+Definition c4_step (known : list peer) (prev : csnap) (now' : N) (o_before o_after : ost) (g : c4) (op : cop) (obs : cobs) : c4 :=
   (* sessions that ended (no state for the peer any more) are forgotten *)
-  let peers0 := filter (fun e => n_mem (fst e) (snap_peers (snd obs)) || n_mem (fst e) known) (c4_peers g) in
+  let peers00 := filter (fun e => n_mem (fst e) (snap_peers (snd obs)) || n_mem (fst e) known) (c4_peers g) in
+  let faulty := map fst (faults_of prev now' op) in
+  let peers0 := map (fun e => if n_mem (fst e) faulty then (fst e, pv_fault (snd e)) else e) peers00 in
   let w_before := c4_w g in
   match op with
   | CIncoming p pres blocks =>
@@ -475,24 +525,55 @@ Definition c4_step (known : list peer) (o_before o_after : ost) (g : c4) (op : c
       MkC4 (live_cids o_after) peers0 (c4_ok g)
   end.
 
-Fixpoint c4_run (known : list peer) (o : ost) (g : c4) (ops : list cop) (obs : list cobs) : c4 :=
+Fixpoint c4_run (prev : csnap) (now : N) (o : ost) (g : c4) (ops : list cop) (obs : list cobs) : c4 :=
   match ops, obs with
   | op :: ops', ob :: obs' =>
+      let known := snap_peers prev in
+      let now' := match op with CAdvance ms => now + ms | _ => now end in
       let o' := o_step known o op ob in
-      c4_run (snap_peers (snd ob)) o' (c4_step known o o' g op ob) ops' obs'
+      c4_run (snd ob) now' o' (c4_step known prev now' o o' g op ob) ops' obs'
   | _, _ => g
   end.
 
-Definition oracle_C04 (x : case) : bool := c4_ok (c4_run [] o0 (MkC4 [] [] true) (snd (fst x)) (snd x)).
+Definition oracle_C04 (x : case) : bool := c4_ok (c4_run csnap0 0 o0 (MkC4 [] [] true) (snd (fst x)) (snd x)).
 
-Fixpoint c4_first_bad (known : list peer) (i : N) (o : ost) (g : c4) (ops : list cop) (obs : list cobs) : option N :=
+Fixpoint c4_first_bad (prev : csnap) (now : N) (i : N) (o : ost) (g : c4) (ops : list cop) (obs : list cobs) : option N :=
   match ops, obs with
   | op :: ops', ob :: obs' =>
+      let known := snap_peers prev in
+      let now' := match op with CAdvance ms => now + ms | _ => now end in
       let o' := o_step known o op ob in
-      let g' := c4_step known o o' g op ob in
-      if c4_ok g' then c4_first_bad (snap_peers (snd ob)) (i + 1) o' g' ops' obs' else Some i
+      let g' := c4_step known prev now' o o' g op ob in
+      if c4_ok g' then c4_first_bad (snd ob) now' (i + 1) o' g' ops' obs' else Some i
   | _, _ => None
   end.
-Definition first_bad_c4 (x : case) : option N := c4_first_bad [] 0 o0 (MkC4 [] [] true) (snd (fst x)) (snd x).
+Definition first_bad_c4 (x : case) : option N := c4_first_bad csnap0 0 0 o0 (MkC4 [] [] true) (snd (fst x)) (snd x).
 
-Definition oracle (x : case) : bool := oracle_base x && oracle_C04 x.
+Definition oracle_all (x : case) : bool := oracle_base x && oracle_C04 x.
+
+(* ---------------------------------------------------------------------------------------------- *)
+(* C05 (behaviour side), second half: after a transmission fault the next wantlist for that peer is a  *)
+(* full one and avoids the faulty connection.  Faults are read off the ops and the implementation's own *)
+(* snapshots: a Failed report from the connection that is sending, or a request that was not           *)
+(* acknowledged for RECEIVE_REQUEST_TIMEOUT when a poll notices it.                                    *)
+Fixpoint c5_run (prev : csnap) (now : N) (faults : list (peer * conn)) (ops : list cop) (obs : list cobs) : bool :=
+  match ops, obs with
+  | op :: ops', ob :: obs' =>
+      let now' := match op with CAdvance ms => now + ms | _ => now end in
+      let new_faults := faults_of prev now' op in
+      let faults1 := new_faults ++ faults in
+      (* every wantlist sent by this op to a peer with a pending fault must be full and avoid that connection *)
+      let sends := flat_map (fun o => match o with OSendWantlist p c f _ => [(p, c, f)] | _ => [] end) (fst ob) in
+      let ok := forallb (fun s => let '(p, c, f) := s in
+                                  forallb (fun pc => if fst pc =? p then f && negb (snd pc =? c) else true) faults1) sends in
+      let faults2 := filter (fun pc => negb (existsb (fun s => fst (fst s) =? fst pc) sends)) faults1 in
+      (* a peer whose state is gone starts a new session when it comes back *)
+      let faults3 := filter (fun pc => n_mem (fst pc) (snap_peers (snd ob))) faults2 in
+      ok && c5_run (snd ob) now' faults3 ops' obs'
+  | _, _ => true
+  end.
+
+Definition oracle_C05_faults (x : case) : bool := c5_run csnap0 0 [] (snd (fst x)) (snd x).
+
+Definition oracle_C05 (x : case) : bool := oracle_C05_first x && oracle_C05_faults x.
+Definition oracle (x : case) : bool := oracle_all x && oracle_C05 x.
